@@ -53,7 +53,7 @@ Definition is_sco21 (c : cls) : bool :=
 
 
 (* ------------------------------------------------------------------ what a generic constructor run gives, in one place *)
-Lemma written_facts : forall vr ev w po so rcX rp ro PX (Hpad : vr_year_pad vr = true) (Hrc : rc_idem rcX PX) cX a i vrf
+Lemma written_facts : forall vr ev w po so rcX rp ro PX (Hpad : vr_year_pad vr = true) (Hrc : rc_idem rcX ro PX) cX a i vrf
     (Hnd : NoDup (map sname (cslots cX))) (Hslots : forallb (slot_ok vr PX) (cslots cX) = true) fuel kw obj,
   plain_dict kw = true ->
   construct_generic vr ev w po so rcX rp ro fuel cX a i kw [] vrf = Ok obj ->
@@ -180,7 +180,15 @@ Section Knot.
      (whose constructor rewrites a missing id afterwards) *)
   Definition nestable (cid0 : ustring) : bool :=
     mem_ustr cid0 ids &&
-    match find_class (wclasses w) cid0 with Some c => negb (is_sco21 c) | None => false end.
+    match find_class (wclasses w) cid0 with Some c => negb (is_sco21 c) && negb (is_obs_tag cid0) | None => false end.
+
+  Lemma nestable_no_tag : forall vv, nestable (obs_tag vv) = false.
+  Proof.
+    intros vv. unfold nestable. destruct (mem_ustr (obs_tag vv) ids); [| reflexivity]. cbn [andb].
+    destruct (find_class (wclasses w) (obs_tag vv)); [| reflexivity].
+    assert (E : is_obs_tag (obs_tag vv) = true) by (destruct vv; vm_compute; reflexivity).
+    rewrite E. apply andb_false_r.
+  Qed.
 
   Definition class_ok (c : cls) : bool :=
     nodupb (map sname (cslots c)) && forallb (slot_ok vr nestable) (cslots c) && init_ok vr (cinit c) &&
@@ -344,11 +352,13 @@ Section Knot.
       plain_dict (omem o) = true.
 
   Lemma claim_rc : forall f, claim f ->
-    rc_idem (fun k a i kw0 => RUN f (RConstruct k a i kw0 None)) nestable.
+    rc_idem (fun k a i kw0 => RUN f (RConstruct k a i kw0 None)) (fun vv refs a d => RUN f (RParseObs (Some vv) refs a false d)) nestable.
   Proof.
-    intros f Hc cid0 a i d o Hn Hp H. unfold nestable in Hn. apply andb_true_iff in Hn. destruct Hn as [Hm Hs].
-    apply (Hc cid0 a i d None o Hm Hp); auto.
-    unfold id_given. destruct (find_class (wclasses w) cid0); auto. rewrite Hs. reflexivity.
+    intros f Hc. split.
+    - intros cid0 a i d o Hn Hp H. unfold nestable in Hn. apply andb_true_iff in Hn. destruct Hn as [Hm Hs].
+      apply (Hc cid0 a i d None o Hm Hp); auto.
+      unfold id_given. destruct (find_class (wclasses w) cid0); auto. apply andb_true_iff in Hs. destruct Hs as [Hs _]. rewrite Hs. reflexivity.
+    - intros vv HP. rewrite nestable_no_tag in HP. discriminate.
   Qed.
 
   Lemma reserved_split : forall (kw : list (ustring * jvalue)),
@@ -474,16 +484,20 @@ Section Knot.
     Lemma nestable_given : forall k kw, nestable k = true -> id_given k kw = true.
     Proof.
       intros k kw Hn. unfold nestable in Hn. apply andb_true_iff in Hn. destruct Hn as [_ Hs].
-      unfold id_given. destruct (find_class (wclasses w) k); auto. rewrite Hs. reflexivity.
+      unfold id_given. destruct (find_class (wclasses w) k); auto. apply andb_true_iff in Hs. destruct Hs as [Hs _]. rewrite Hs. reflexivity.
     Qed.
 
-    Lemma rc2_idem : forall mcid, nestable mcid = true -> rc_idem (rc2 mcid) P2.
+    Lemma rc2_idem : forall mcid, nestable mcid = true -> rc_idem (rc2 mcid) ro P2.
     Proof.
-      intros mcid Hn cid0 a0 i0 x o HP Hp H. unfold rc2 in *. unfold P2 in HP.
-      destruct (ustr_eqb cid0 MARK) eqn:E.
-      - pose proof Hn as Hn'. unfold nestable in Hn'. apply andb_true_iff in Hn'. destruct Hn' as [Hm _].
-        exact (IH mcid false false x None o Hm Hp (nestable_given mcid x Hn) H).
-      - cbn [orb] in HP. exact (claim_rc f IH cid0 a0 i0 x o HP Hp H).
+      intros mcid Hn. split.
+      - intros cid0 a0 i0 x o HP Hp H. unfold rc2 in *. unfold P2 in HP.
+        destruct (ustr_eqb cid0 MARK) eqn:E.
+        + pose proof Hn as Hn'. unfold nestable in Hn'. apply andb_true_iff in Hn'. destruct Hn' as [Hm _].
+          exact (IH mcid false false x None o Hm Hp (nestable_given mcid x Hn) H).
+        + cbn [orb] in HP. exact (proj1 (claim_rc f IH) cid0 a0 i0 x o HP Hp H).
+      - intros vv HP. unfold P2 in HP. rewrite nestable_no_tag in HP.
+        assert (E : ustr_eqb (obs_tag vv) MARK = false) by (destruct vv; vm_compute; reflexivity).
+        rewrite E in HP. discriminate.
     Qed.
 
     Lemma strict_plain_unflagged : forall k i0 x vrefs0 o,
@@ -860,7 +874,7 @@ Section Knot.
     Definition effective (c : cls) (allow interop : bool) (kw : list (ustring * jvalue))
                (vrf : option (list (ustring * ustring))) (obj : pval) : Prop :=
       exists cE rcE PE kwE,
-        rc_idem rcE PE /\ NoDup (map sname (cslots cE)) /\ forallb (slot_ok vr PE) (cslots cE) = true /\
+        rc_idem rcE ro PE /\ NoDup (map sname (cslots cE)) /\ forallb (slot_ok vr PE) (cslots cE) = true /\
         construct_generic vr ev w pattern_ok selectors_ok rcE rp ro (S f) cE allow interop kwE [] vrf = Ok obj /\
         plain_dict kwE = true /\ (forall n, n <> PVERSION -> alookup n kwE = alookup n kw) /\
         cid cE = cid c /\ (forall S0, defaulted_names cE S0 = defaulted_names c S0) /\
